@@ -39,8 +39,12 @@ func (o Op) Label() string {
 		return fmt.Sprintf("pub(%s,%s)", o.Topic, strings.Join(parts, "+"))
 	case "pull":
 		return fmt.Sprintf("pull(%s,%d)", o.Sub, o.Max)
-	case "ack", "nack":
+	case "ack", "nack", "acknack":
 		return fmt.Sprintf("%s(%s,%s)", o.K, o.Sub, o.Sel)
+	case "updateSub", "modifyPush":
+		return fmt.Sprintf("%s(%s)", o.K, o.Sub)
+	case "updateTopic":
+		return fmt.Sprintf("%s(%s)", o.K, o.Topic)
 	case "modack":
 		return fmt.Sprintf("modack(%s,%s,%v)", o.Sub, o.Sel, o.D)
 	case "sweepDL":
@@ -229,6 +233,20 @@ func (m *Model) selectIDs(s *Sub, sel string) ([]string, bool) {
 			return nil, false
 		}
 		return []string{s.Done[0], UnknownAckID, s.Held[0]}, true
+	case "span":
+		// the oldest held id of every subscription that holds one
+		var ids []string
+		for _, n := range m.subNames() {
+			if o := m.Subs[n]; len(o.Held) > 0 {
+				ids = append(ids, o.Held[0])
+			}
+		}
+		return ids, len(ids) >= 2
+	case "first2":
+		if len(s.Held) < 2 {
+			return nil, false
+		}
+		return []string{s.Held[0], s.Held[1]}, true
 	case "foreign":
 		for _, n := range m.subNames() {
 			o := m.Subs[n]
@@ -253,7 +271,9 @@ func (m *Model) Prepare(op Op, now time.Time) (Call, bool) {
 		return c, true
 	case "pull":
 		return c, true
-	case "ack", "modack", "nack":
+	case "updateSub", "modifyPush", "updateTopic":
+		return c, true
+	case "ack", "modack", "nack", "acknack":
 		s := m.Subs[op.Sub]
 		if s == nil {
 			return c, false
